@@ -111,6 +111,10 @@ def world_job(job):
                 # emitted logging interceptors / REST logging then serialise every request, reply and error
                 if "debug_logging" not in sc and R.stream(seed, "debug-logging", i).random() < 0.12:
                     sc["debug_logging"] = True
+                # threaded scenarios: half of them are also pre-empted BETWEEN seams, at line events of emitted code
+                if sc.get("threads") and "preempt_p" not in sc:
+                    r = R.stream(seed, "preempt", i)
+                    sc["preempt_p"] = r.choice([0.0, 0.0, 0.01, 0.03, 0.1])
                 if sc.get("client") == "rest" and "http_error_body" not in sc:
                     sc["http_error_body"] = R.stream(seed, "http-error-body", i).choice([None, None, "html", "empty"])
         res["build_s"] = time.perf_counter() - t0
@@ -146,6 +150,10 @@ def world_job(job):
             nr = sum(1 for e in hist if e["k"] == "credentials_refreshed")
             if nr:
                 res["faults"]["http_401_credentials_refreshed_and_resent"] = res["faults"].get("http_401_credentials_refreshed_and_resent", 0) + nr
+            for e in hist:
+                if e["k"] == "threads_done":
+                    res["faults"]["thread_switches_at_seams"] = res["faults"].get("thread_switches_at_seams", 0) + e.get("switches", 0)
+                    res["faults"]["thread_preemptions_between_seams"] = res["faults"].get("thread_preemptions_between_seams", 0) + e.get("preemptions", 0)
             nc = sum(1 for e in hist if e["k"] == "cancel")
             if nc:
                 res["faults"]["caller_task_cancelled"] = res["faults"].get("caller_task_cancelled", 0) + nc
